@@ -107,6 +107,10 @@ func (e *Engine) isStoreMethod(c *ssa.CallCommon) bool {
 		"github.com/janelia-flyem/dvid/storage.Filter.Check":
 		// resolver entry points: read-only on the program heap (verified: datastore.VersionedCtx.* declare `modifies nothing`)
 		return true
+	case "io.Writer.Write", "net/http.ResponseWriter.Write", "net/http.ResponseWriter.WriteHeader":
+		// output sinks (HTTP responses, buffers handed in by the caller): TRUSTED not to modify objects of the
+		// modelled program heap (listed in DESIGN section 9.1)
+		return true
 	}
 	n, ok := t.(*types.Named)
 	if !ok || n.Obj().Pkg() == nil || n.Obj().Pkg().Path() != modPath+"/storage" {
